@@ -11,9 +11,16 @@
 
   answer   `<outcome>*` (one per add until the first that is not ok: ok / err:<kind> / panic:<site>)
            `|` `<resolution>*nq` (after the last ok add; `-` if some add failed)
+
+  c18 flatten <tree>     the paths `library!` must emit for a `use` declaration (`RotoV.Use.flattenSpec`;
+                         the function generated from the source is proved equal to it in Props/C18.lean,
+                         so this handler does not depend on the extraction succeeding)
+  tree     P <ident> <tree> | N <ident> | R <ident> <ident> | S | G <k> <tree>*k
+  answer   `none` (compile error) or `some <path>*` with path = idents joined by `.`
 -/
 import Driver.Util
 import RotoV.Model.Registration
+import RotoV.Model.UseTree
 
 namespace Driver.C18
 open RotoV.Reg
@@ -131,8 +138,32 @@ def session : P String := do
     | some st => qs.map (fun q => showDecl (resolvePath st q))
   pure (" ".intercalate outs ++ " | " ++ " ".intercalate res)
 
+mutual
+partial def useTree : P RotoV.Use.UseTree := do
+  match ← tok with
+  | "P" => do let i ← nat; let t ← useTree; pure (.path i t)
+  | "N" => do pure (.name (← nat))
+  | "R" => do let a ← nat; let b ← nat; pure (.rename a b)
+  | "S" => pure .glob
+  | "G" => do let k ← nat; let l ← useTrees k; pure (.group (RotoV.Use.UseTrees.ofList l))
+  | _ => failure
+partial def useTrees : Nat → P (List RotoV.Use.UseTree)
+  | 0 => pure []
+  | n + 1 => do let a ← useTree; let r ← useTrees n; pure (a :: r)
+end
+
+def flatten : P String := do
+  let t ← useTree
+  match RotoV.Use.flattenSpec t with
+  | none => pure "none"
+  | some ps => pure (" ".intercalate ("some" :: ps.map (fun p => ".".intercalate (p.map toString))))
+
 def handle (args : List String) : String :=
   match args with
+  | "flatten" :: rest =>
+    match flatten.run rest with
+    | some (s, []) => s
+    | _ => "bad-op"
   | "session" :: rest =>
     match session.run rest with
     | some (s, []) => s
